@@ -433,10 +433,14 @@ pub fn crash_case<D: Distance>(c: &CrashCase, max_kills: usize, st: &mut CaseSta
         // kill plan
         let mut mix = Mix::new(c.kseed);
         let mut kills: Vec<Kill> = Vec::new();
-        // larger histories: focus on a later version (an earlier process life already consumed temp-file
-        // names / node ids, so a resumed process does not simply repeat the killed one)
+        // larger histories: focus on the build with the most callbacks (the one that stages the largest volume
+        // of nodes in its scratch files, which is where a kill leaves the most behind)
         let big_history = spec.rounds.iter().map(|r| r.ops.len()).sum::<usize>() > 150;
-        let v_focus = if big_history && last >= 2 { 2 + mix.below(last as u64 - 1) as usize } else { 1 + mix.below(last as u64) as usize };
+        let v_focus = if big_history {
+            calls.iter().max_by_key(|(_, c)| **c).map(|(v, _)| *v).unwrap_or(1)
+        } else {
+            1 + mix.below(last as u64) as usize
+        };
         let total = calls.get(&v_focus).copied().unwrap_or(0);
         let stride = if total <= 160 { 1 } else { total / 120 };
         let mut k = 0;
@@ -483,6 +487,12 @@ pub fn crash_case<D: Distance>(c: &CrashCase, max_kills: usize, st: &mut CaseSta
             if let Some(cv) = r.committing {
                 if cv == r.last_ack + 1 {
                     admissible.push(cv);
+                }
+            }
+            if std::env::var("VERIF_C09_DEBUG").is_ok() {
+                let left: Vec<_> = std::fs::read_dir(dir.join("arroy-tmp")).map(|d| d.filter_map(|e| e.ok()).map(|e| (e.file_name(), e.metadata().map(|m| m.len()).unwrap_or(0))).collect()).unwrap_or_default();
+                if !left.is_empty() {
+                    eprintln!("C09 DEBUG: after {kill:?}: temp dir holds {left:?}");
                 }
             }
             let what = format!("killed at {kill:?} (last acknowledged commit {}, commit in flight {:?})", r.last_ack, r.committing);
